@@ -404,6 +404,28 @@ class CallGraph:
         self._mark_write(s, origin(a), deref=deref and a["k"] == "DeclRefExpr")
 
     # ---- queries ------------------------------------------------------------
+    def const_return(self, unit, name):
+        """The constant every return statement of a defined function yields, else None."""
+        k = self.resolve(unit, name)
+        if k is None:
+            return None
+        cache = self.__dict__.setdefault("_cr", {})
+        if k in cache:
+            return cache[k]
+        f = self.funcs[k]
+        vals = set()
+        for n in walk(f.body):
+            if n["k"] == "ReturnStmt":
+                ks = kids(n)
+                if not ks:
+                    vals.add(None)
+                else:
+                    v = ks[0].get("val", strip(ks[0]).get("val"))
+                    vals.add(v)
+        r = vals.pop() if len(vals) == 1 else None
+        cache[k] = r
+        return r
+
     def is_pure(self, fkey_unit, name):
         """No caller-visible memory written (out-parameters excepted by the caller)."""
         k = self.resolve(fkey_unit, name)
